@@ -23,6 +23,7 @@ structure St where
   it64 : Std.HashMap String IterSt := {}      -- roaring64 iterators (own namespace on the Go side too)
   bsi : Std.HashMap String BsiSt := {}
   bufLen : Std.HashMap String Nat := {}       -- byte buffers known only by length
+  zb : Std.HashMap String (String × BSet × Bool) := {}  -- protected caller-owned buffers: (kind, encoded set, alive)
   deriving Inhabited
 
 /-- result of checking a line: `none` = agrees -/
